@@ -250,14 +250,27 @@ def case_library(ctx, size, rseed, count):
             label = "Shuffle(CNF(%d vars, %r%s), %r, %r, %r) seed %d %s" % (
                 N, cls[:6], "..." if M > 6 else "", pf if isinstance(pf, str) else list(pf)[:8],
                 vp if isinstance(vp, str) else list(vp)[:8], cp if isinstance(cp, str) else list(cp)[:8], seed, mode)
-            if mode == "fair":
-                random.seed(seed)
-                st, G = ctx.call(Shuffle, F, pf, vp, cp)
-            else:
-                with adversary(mode, 2 * N + 5, seed) as adv:
+            # one call in four with the repository's verification hook switched off (the way users run the code): only
+            # the hook-independent judgements apply to it
+            hook_off = r.random() < 0.25
+            saved = os.environ.pop("CNFGEN_VERIF", None) if hook_off else None
+            try:
+                if mode == "fair":
+                    random.seed(seed)
                     st, G = ctx.call(Shuffle, F, pf, vp, cp)
-                if adv.engaged:
-                    ctx.count("adversary_engaged")
+                else:
+                    with adversary(mode, 2 * N + 5, seed) as adv:
+                        st, G = ctx.call(Shuffle, F, pf, vp, cp)
+                    if adv.engaged:
+                        ctx.count("adversary_engaged")
+            finally:
+                if saved is not None:
+                    os.environ["CNFGEN_VERIF"] = saved
+            if hook_off:
+                ctx.count("calls_with_the_hook_off")
+                label += " [hook off]"
+                if st == "ok" and getattr(G, "_verif_shuffle_witness", None) is not None:
+                    ctx.violation("shuffle:hook-not-guarded", "%s: a witness is attached although CNFGEN_VERIF is not set" % label)
             if "explicit" in combo:
                 ctx.count("explicit_valid")
             if "fixed" in combo:
